@@ -4294,6 +4294,10 @@ fn check_entity_ref(
     if entity.notation_name().is_some() {
         return Err(error::Error::InvalidData(entity.name().to_string()));
     }
+    // WFC: No External Entity References
+    if attribute && entity.system_identifier().is_some() {
+        return Err(error::Error::InvalidData(entity.name().to_string()));
+    }
     match seen.get(entity.name()) {
         Some(true) => return Ok(()),
         // WFC: No Recursion
